@@ -136,6 +136,7 @@ def sweep_cases(cfgs: list[str]):  # noqa: ANN201
                                "agents": [{"at": at, "place": place, "victim": victim}]}  # fmt: skip
 
         for caller in ("never-held", "held-and-released", "other-holds",
+                       "other-holds+own-acquire_nowait-failed",
                        "released-to-queued-contender", "released-to-2-queued-contenders"):
             for method in ("wait", "notify", "notify_all"):
                 for nq in (0, 1, 2):
@@ -441,10 +442,17 @@ def execute_refusal(case: dict) -> dict:
                 await cond.wait()
                 woken.append(i)
 
+        holder_says: list = []
+
         async def holder(ev_in: anyio.Event, ev_out: anyio.Event) -> None:
             async with cond:
                 ev_in.set()
                 await ev_out.wait()
+                # the task that really holds the lock is never refused
+                try:
+                    cond.notify(0)
+                except RuntimeError as e:
+                    holder_says.append(repr(e))
 
         async with anyio.create_task_group() as tg:
             for i in range(case["queued"]):
@@ -457,10 +465,16 @@ def execute_refusal(case: dict) -> dict:
             if case["caller"] == "held-and-released":
                 await cond.acquire()
                 cond.release()
-            elif case["caller"] == "other-holds":
+            elif case["caller"].startswith("other-holds"):
                 got = anyio.Event()
                 tg.start_soon(holder, got, release_holder)
                 await got.wait()
+                if "acquire_nowait-failed" in case["caller"]:
+                    try:
+                        cond.acquire_nowait()
+                        viol.append(("acquire_nowait-succeeded-on-a-held-condition", {}))
+                    except anyio.WouldBlock:
+                        pass
             elif case["caller"].startswith("released-to-"):
                 # the lock is handed straight to a task queued on it: from release() on the
                 # caller no longer holds it, although the new holder has not run yet
@@ -514,6 +528,9 @@ def execute_refusal(case: dict) -> dict:
 
             if sorted(woken) != list(range(case["queued"])):
                 viol.append(("waiter-lost-after-refused-call", {"woken": woken}))
+
+            if holder_says:
+                viol.append(("holder-of-the-lock-was-refused", {"exc": holder_says[0]}))
 
             tg.cancel_scope.cancel()
 
